@@ -709,7 +709,10 @@ def coq_dispatch_case(R, calls, exc):
             lo, hi = kw["bounds"]
             box = "(Some (%s, %s))" % (vlib.fl_list([float(v) for v in lo]), vlib.fl_list([float(v) for v in hi]))
         return "(%s false true %s %s None 0%%nat)" % (head, "true" if kw.get("sigma") is not None else "false", box)
-    raw = bounds_term(kw.get("bounds"))
+    try:
+        raw = bounds_term(kw.get("bounds"))
+    except (TypeError, ValueError):     # not a sequence of (lower, upper) pairs at all: cannot equal the declared bounds
+        raw = "(Some [(Some 0x1p+1000, Some (-0x1p+1000))])"
     k = kw.get("constraints", ())
     k = 1 if isinstance(k, dict) else len(list(k))
     return "(%s false false false None %s %d%%nat)" % (head, raw, k)
